@@ -1,8 +1,48 @@
 import Ypv.Drv.Codec
-/-! Driver handler for C04 (stub: replaced by the module that models C04) -/
+import Ypv.Model.Edit
+import Ypv.Spec.Edit
+/-! Driver handler for C04 (delete) and JSON helpers shared with the C03 / C09 handlers. -/
 namespace Ypv.Drv.C04
 open Lean (Json)
+open Ypv Ypv.Drv
 
-def handle (_op : String) (_j : Json) : Except String Json := throw "C04: driver not implemented yet"
+def addrsOf (j : Json) (k : String) : Except String (List Addr) := do
+  (← getArr j k).toList.mapM addrOfJson
+
+def docOf (j : Json) : Except String Node := do
+  nodeOfJson (← j.getObjVal? "doc")
+
+def outToJson : Except Err Node → Json
+  | .ok d => Json.mkObj [("ok", nodeToJson d)]
+  | .error e => Json.mkObj [("err", errToJson e)]
+
+def fmtOfName : String → Except String Fmt
+  | "DEFAULT" => pure .default | "BARE" => pure .bare | "DQUOTE" => pure .dquote
+  | "SQUOTE" => pure .squote | "FOLDED" => pure .folded | "LITERAL" => pure .literal
+  | "BOOLEAN" => pure .boolean | "FLOAT" => pure .float | "INT" => pure .int
+  | s => throw s!"format {s}"
+
+def psegOf (j : Json) : Except String PSeg := do
+  match j with
+  | .arr #[.str "k", .str s] => pure (.key (s2l s))
+  | .arr #[.str "i", ij] => match ij.getInt? with
+    | .ok i => pure (.index i)
+    | .error e => throw e
+  | _ => throw "pseg expected"
+
+def psegsOf (j : Json) (k : String) : Except String (List PSeg) := do
+  (← getArr j k).toList.mapM psegOf
+
+/-- `{"op":"C04.delete","doc":…,"addrs":[…]}` ↦ repaired model, specification, pinned loop. -/
+def handle (op : String) (j : Json) : Except String Json := do
+  match op with
+  | "delete" =>
+    let d ← docOf j
+    let addrs ← addrsOf j "addrs"
+    let (pd, pe) := deletePinned d addrs
+    pure (Json.mkObj [("model", outToJson (delete d addrs)), ("spec", outToJson (deleteSpec d addrs)),
+      ("pinned", Json.mkObj [("doc", nodeToJson pd),
+        ("err", match pe with | some e => errToJson e | none => Json.null)])])
+  | _ => throw s!"C04: unknown op {op}"
 
 end Ypv.Drv.C04
